@@ -186,6 +186,7 @@ struct Ctx
     const Plan* plan;
     bool checked_build;
     bool capacity_mode; // C10 relaxed oracle
+    bool overmax = false; // capacity mode: growth beyond what the length type can express is offered too
     unsigned L;
     bool big;
     u64 buf;     // n: bytes the view is bound to
@@ -415,6 +416,12 @@ void run_plan(Exec& ex, DoOp do_op)
         const u64 S = c.synced ? c.S : 0;
         // limit on the size the op may produce
         u64 lim = std::min<u64>(c.max_size, c.capacity_mode ? c.cap + 24 : c.cap);
+        // "overmax" plans (capacity mode, narrow length types): operations whose resulting size is computed
+        // *inside* the library (push_back, the insert overloads, assign from a source, assign_string) may ask
+        // for more than the length type can express; sizes passed as size_type arguments cannot (the call
+        // site would truncate them). The relaxed oracle applies: handler, or no access at or beyond p+n.
+        const bool overmax = c.capacity_mode && c.overmax;
+        const u64 lim_grow = overmax ? std::max<u64>(lim, c.cap + 24) : lim;
         std::vector<u8> inb = op.bytes;
         u64 pos = 0, pos2 = 0, cnt = 0;
         u8 valb = 0;
@@ -431,7 +438,7 @@ void run_plan(Exec& ex, DoOp do_op)
         };
         if(n == "push_back")
         {
-            if(S + 1 > lim) skip = true;
+            if(S + 1 > lim_grow) skip = true;
             newS = S + 1;
             M2.push_back(valb);
         }
@@ -447,7 +454,7 @@ void run_plan(Exec& ex, DoOp do_op)
         else if(n == "insert1")
         {
             pos = op.uarg(0) % (S + 1);
-            if(S + 1 > lim) skip = true;
+            if(S + 1 > lim_grow) skip = true;
             newS = S + 1;
             M2.insert(M2.begin() + (long)pos, valb);
             exp_ret = (long long)pos;
@@ -455,7 +462,7 @@ void run_plan(Exec& ex, DoOp do_op)
         else if(n == "insertn")
         {
             pos = op.uarg(0) % (S + 1);
-            cnt = std::min<u64>(op.uarg(1), lim > S ? lim - S : 0);
+            cnt = std::min<u64>({op.uarg(1), lim_grow > S ? lim_grow - S : 0, c.max_size});
             newS = S + cnt;
             M2.insert(M2.begin() + (long)pos, cnt, valb);
             exp_ret = (long long)pos;
@@ -501,7 +508,7 @@ void run_plan(Exec& ex, DoOp do_op)
         else if(n == "insert_fwd" || n == "insert_vec" || n == "insert_inp" || n == "insert_il")
         {
             pos = op.uarg(0) % (S + 1);
-            clampin(lim > S ? lim - S : 0);
+            clampin(lim_grow > S ? lim_grow - S : 0);
             if(n == "insert_il") clampin(4);
             newS = S + inb.size();
             M2.insert(M2.begin() + (long)pos, inb.begin(), inb.end());
@@ -542,7 +549,7 @@ void run_plan(Exec& ex, DoOp do_op)
         }
         else if(n == "assign_it" || n == "assign_inp" || n == "assign_il" || n == "assign_range" || n == "assign_string")
         {
-            clampin(lim);
+            clampin(lim_grow);
             if(n == "assign_il") clampin(4);
             if(n == "assign_string")
                 for(auto& b : inb)
@@ -575,7 +582,8 @@ void run_plan(Exec& ex, DoOp do_op)
         static const u8 dummy{};
         const u8* inp = inb.empty() ? &dummy : inb.data();
 
-        const bool in_bounds = c.synced && (u64)L + std::max(S, newS) <= c.buf;
+        const bool in_bounds = c.synced && (u64)L + std::max(S, newS) <= c.buf && newS <= c.max_size;
+        if(newS > c.max_size) sim::stats().count("fault.size_beyond_length_type");
         std::memcpy(before.data(), p, c.buf);
         OpRes r;
         Outcome o = sim::guarded([&] { do_op(p, (std::size_t)c.buf, op, pos, pos2, cnt, valb, inp, inb.size(), cstr.c_str(), r); });
@@ -751,6 +759,7 @@ Result exec_plan(const Plan& plan)
     c.plan = &plan;
     c.checked_build = kCheckedBuild;
     c.capacity_mode = plan.get("mode") == "capacity";
+    c.overmax = plan.geti("overmax") != 0;
     int li = (int)plan.geti("L");
     c.L = kLenSize[li & 3];
     c.big = plan.geti("E") != 0;
@@ -807,6 +816,18 @@ Plan gen_plan(u64 seed, const std::string& prop, const std::string& tier)
     default: cap = li == 0 ? cfg.range(250, 300) : cfg.range(120, 400); break;
     }
     bool big_plan = false;
+    bool overmax = false;
+    {
+        // capacity mode, 8- and 16-bit length types: arrays at or near max_size() in a buffer that ends right
+        // there, and growth beyond what the length type can express (drawn from a fork: other plans stay as they were)
+        sim::Rng om = root.fork("overmax");
+        if(capmode && li <= 1 && om.chance(1, li == 0 ? 5 : 40))
+        {
+            overmax = true;
+            cap = kLenMax[li] - 6 + om.below(30);
+            p.seti("overmax", 1);
+        }
+    }
     if(!capmode && li >= 1 && cfg.chance(1, 40))
     {
         // sizes around 65535: carries between the bytes of a multi-byte length prefix
@@ -827,6 +848,7 @@ Plan gen_plan(u64 seed, const std::string& prop, const std::string& tier)
     const u64 lim = std::min<u64>(kLenMax[li], cap);
     u64 s0 = ini.chance(1, 3) ? 0 : ini.chance(1, 4) ? lim : ini.below(lim + 1);
     if(big_plan) s0 = std::min<u64>(lim, 65520 + ini.below(30));
+    if(overmax && root.fork("overmax-size").chance(2, 3)) s0 = lim - std::min<u64>(lim, root.fork("overmax-size2").below(5));
     if(buf >= L) encode_len(init.data(), L, p.geti("E") != 0, s0);
     p.set("init", "x" + sim::hex(init));
     if(!capmode && seed % 512 == 7)
